@@ -30,7 +30,10 @@ def main():
         if e.get("Package"):
             pkgs.add(e["Package"])
         if e.get("Test") and e.get("Action") in ("pass", "fail"):
-            (passed if e["Action"] == "pass" else failed).add(e["Package"] + "::" + e["Test"])
+            # some sub-test names embed the absolute path of the tree (printer TestFromParse/...): the pinned
+            # names were recorded in /repo, a scratch worktree has another prefix
+            name = e["Test"].replace(os.path.realpath(REPO), "/repo")
+            (passed if e["Action"] == "pass" else failed).add(e["Package"] + "::" + name)
     p.wait()
     stable = json.load(open(BASE))["stable_pass"] if os.path.exists(BASE) else []
     want = [t for t in stable if t.split("::")[0] in pkgs]
